@@ -319,6 +319,10 @@ type Resp struct {
 type Getter struct {
 	R   map[string]Resp
 	Log []string
+	// ReuseBuffer makes the getter read every response into one buffer it keeps (as a client with a pooled read buffer does):
+	// what it returned for an earlier request is overwritten by the next one. A library must not keep references into it.
+	ReuseBuffer bool
+	buf         []byte
 }
 
 func (g *Getter) Get(u string) (map[string][]string, []byte, error) {
@@ -337,6 +341,16 @@ func (g *Getter) Get(u string) (map[string][]string, []byte, error) {
 	}
 	if r.H == nil {
 		h = nil
+	}
+	if g.ReuseBuffer {
+		if cap(g.buf) < len(r.B)+1 {
+			g.buf = make([]byte, 1<<20+len(r.B))
+		}
+		for i := range g.buf[:cap(g.buf)] {
+			g.buf[i] = ' '
+		}
+		n := copy(g.buf[:cap(g.buf)], r.B)
+		return h, g.buf[:n:n], nil
 	}
 	return h, append([]byte(nil), r.B...), nil
 }
